@@ -46,10 +46,17 @@ def has_duplicates(d):
     return False
 
 
-def has_py_duplicates(d):
-    """some array holds two items that are equal for Python (0 == -0.0 == False, 1 == 1.0 == True): a set built from it is smaller"""
+def has_py_duplicates(d, unordered=False):
+    """some array holds two items that are equal for Python (0 == -0.0 == False, 1 == 1.0 == True): a set built from it is smaller.
+    unordered=True also treats nested arrays as sets (two arrays with the same items in another order are equal once they are
+    deserialized as nested sets)"""
     def freeze(x):
         if type(x) is list:
+            if unordered:
+                try:
+                    return ("s", frozenset(freeze(e) for e in x))
+                except TypeError:
+                    pass
             return ("l", tuple(freeze(e) for e in x))
         if type(x) is dict:
             return ("d", frozenset((k, freeze(v)) for k, v in x.items()))
@@ -60,9 +67,9 @@ def has_py_duplicates(d):
                 return True
         except TypeError:
             return True
-        return any(has_py_duplicates(x) for x in d)
+        return any(has_py_duplicates(x, unordered) for x in d)
     if type(d) is dict:
-        return any(has_py_duplicates(x) for x in d.values())
+        return any(has_py_duplicates(x, unordered) for x in d.values())
     return False
 
 
